@@ -32,7 +32,7 @@ func ql(l []string) string {
 	var p []string
 	for _, x := range l {
 		p = append(p, q(x))
-		if len(p) == 6 {
+		if len(p) == 3 {
 			p = append(p, fmt.Sprintf("…(%d elements)", len(l)))
 			break
 		}
